@@ -2390,7 +2390,10 @@ def _as_wrapper_call(prog: Program, fi: FuncInfo, e: Event) -> Optional[Term]:
     return ("call", T.glob(F.qualname), tuple(vals), ())
 
 
-def _splice_pass(prog: Program, fi: FuncInfo, events: List[Event]) -> Tuple[List[Event], bool]:
+_DEFERRED_GEN = [False]
+
+
+def _splice_pass(prog: Program, fi: FuncInfo, events: List[Event], defer_generators: bool = False) -> Tuple[List[Event], bool]:
     subst: Dict[Term, Term] = {}
     out: List[Event] = []
 
@@ -2453,6 +2456,12 @@ def _splice_pass(prog: Program, fi: FuncInfo, events: List[Event]) -> Tuple[List
                 subst[("enter", e.term)] = T.replace(y.term, full)
                 changed = True
                 continue
+        if defer_generators and callee is not None and not _is_context_manager(callee) and is_new_helper(callee) and not isinstance(callee.node, ast.Lambda):
+            cs_d = summarise(prog, callee)
+            if any(x.kind == "yield" for x in cs_d.events) and any(x.kind in ("store", "del", "call") and x.iters for x in cs_d.events):
+                # a generator helper that does something between its yields: first see (next round) whether a loop consumes it
+                _DEFERRED_GEN[0] = True
+                callee = None
         if callee is not None and not _is_context_manager(callee) and spliceable(prog, fi, callee) and (not callee.is_async or e.awaited):
             args = T.replace(e.term[2], subst) if subst else e.term[2]
             kws = T.replace(e.term[3], subst) if subst else e.term[3]
@@ -2510,6 +2519,132 @@ def _splice_pass(prog: Program, fi: FuncInfo, events: List[Event]) -> Tuple[List
     return out, changed
 
 
+def _inline_generators(prog: Program, fi: FuncInfo, events: List[Event]) -> Tuple[List[Event], bool]:
+    """`for t in gen(args): BODY` over a generator helper that a later change introduced is the generator's body with BODY in the
+    place of every `yield` (the value bound to t): what the generator does between two yields (shuffling, counting, removing)
+    happens between two runs of BODY, in that order.  Only when the call's value is used by exactly one loop and nowhere else but
+    in collections built by that loop."""
+    for ci, e in enumerate(events):
+        if e.kind != "call" or e.term[0] != "call" or (isinstance(e.extra, dict) and "spliced_call" in e.extra):
+            continue
+        callee, recv = _resolve_callee(prog, fi, e)
+        if callee is None or isinstance(callee.node, ast.Lambda) or not is_new_helper(callee) or callee.is_async or _is_context_manager(callee) or callee.qualname == fi.qualname:
+            continue
+        cs0 = summarise(prog, callee)
+        ys0 = [x for x in cs0.events if x.kind == "yield"]
+        if not ys0 or len(cs0.events) > 200 or any(r.term != T.NONE for r in cs0.returns) or any(x.kind == "await" for x in cs0.events):
+            continue
+        if not any(x.kind in ("store", "del", "call") and x.iters for x in cs0.events):
+            continue        # nothing happens between the yields: the pure form (a collection) is read as before
+        callterm = e.term
+
+        def loop_pos(x: Event) -> Optional[int]:
+            for k, it in enumerate(x.iters):
+                if T.is_term(it) and it[0] == "it" and len(it) >= 3 and T.strip(it[2]) == callterm:
+                    return k
+            return None
+        cons = [j for j, x in enumerate(events) if j > ci and loop_pos(x) is not None]
+        if not cons or cons != list(range(cons[0], cons[-1] + 1)):
+            continue
+        mapping = _bind_params(callee, recv, e.term[2], e.term[3])
+        if mapping is None:
+            continue
+        cs = spliced(prog, callee)
+        sfx = f"§{callee.name}"
+        full = {T.var(n): T.var(f"{n}{sfx}") for n in cs.locals if T.var(n) not in mapping}
+        full.update(mapping)
+        first = events[cons[0]]
+        k0 = loop_pos(first)
+        tgt = first.iters[k0][1]
+        outer_iters = tuple(first.iters[:k0])
+        g0 = tuple(first.guards)
+        for j in cons:
+            g0 = tuple(a for a, b in zip(g0, events[j].guards) if a == b)[:len(g0)]
+
+        def at_yield(y: Event):
+            """(extra iters, extra guards, substitution for the loop target) of one yield"""
+            yv = T.replace(y.term, full)
+            yi = tuple(T.replace(y.iters, full))
+            yg = tuple(T.replace(y.guards, full))
+            sv = T.strip(yv)
+            if sv[0] == "star":
+                return yi + (("it", tgt, sv[1]),), yg, {}
+            if tgt[0] == "tuple" and sv[0] == "tuple" and len(tgt[1]) == len(sv[1]):
+                return yi, yg, {a: b for a, b in zip(tgt[1], sv[1])}
+            if tgt[0] == "var":
+                return yi, yg, {tgt: yv}
+            return None
+
+        plans = [at_yield(y) for y in cs.events if y.kind == "yield"]
+        if any(pl is None for pl in plans):
+            continue
+        out: List[Event] = list(events[:ci]) + [x for x in events[ci + 1:cons[0]] if not (x.kind == "test" and T.contains((x.term,), callterm))]
+        mk = Event(0, "spliced", ("marker", callee.qualname), ("marker", callee.qualname), e.node, e.stmt, e.guards, e.iters, e.tries, e.awaited, dict(e.extra, spliced_call=callee.qualname, suffix=sfx))
+        out.append(mk)
+        pi = 0
+        for ce in cs.events:
+            if ce.kind == "return":
+                continue
+            if ce.kind != "yield":
+                out.append(Event(0, ce.kind, T.replace(ce.term, full), T.replace(ce.raw, full), ce.node, first.stmt, g0 + tuple(T.replace(ce.guards, full)),
+                                 outer_iters + tuple(T.replace(ce.iters, full)), first.tries + ce.tries, ce.awaited, dict(ce.extra, via=callee.qualname)))
+                continue
+            yi, yg, sub = plans[pi]
+            pi += 1
+            for j in cons:
+                x = events[j]
+                k = loop_pos(x)
+                gs = g0 + yg + tuple(x.guards[len(g0):])
+                its = tuple(x.iters[:k]) + yi + tuple(x.iters[k + 1:])
+                if sub:
+                    out.append(Event(0, x.kind, T.replace(x.term, sub), T.replace(x.raw, sub), x.node, x.stmt, T.replace(gs, sub), T.replace(its, sub), x.tries, x.awaited, x.extra))
+                else:
+                    out.append(Event(0, x.kind, x.term, x.raw, x.node, x.stmt, gs, its, x.tries, x.awaited, x.extra))
+
+        def rebag(t: Any) -> Any:
+            """collections built by the consumer loop (comprehension / accumulator over the generator): one element per yield"""
+            if not isinstance(t, tuple):
+                return t
+            t = tuple(rebag(x) for x in t)
+            if T.is_term(t) and t[0] == "bag" and len(t) >= 2 and isinstance(t[1], tuple):
+                els = []
+                hit = False
+                for el in t[1]:
+                    kk = None
+                    if T.is_term(el) and el[0] == "elem" and len(el) == 4:
+                        for k, it in enumerate(el[3]):
+                            if T.is_term(it) and it[0] == "it" and len(it) >= 3 and T.strip(it[2]) == callterm:
+                                kk = k
+                                break
+                    if kk is None:
+                        els.append(el)
+                        continue
+                    hit = True
+                    etgt = el[3][kk][1]
+                    for (yi, yg, sub) in plans:
+                        sub2 = dict(sub)
+                        if sub and etgt != tgt and etgt[0] == "tuple" and tgt[0] == "tuple" and len(etgt[1]) == len(tgt[1]):
+                            sub2 = {a: sub.get(b, b) for a, b in zip(etgt[1], tgt[1])}
+                        yi2 = tuple((("it", etgt, i2[2]) if (not sub and i2 == ("it", tgt, i2[2]) and i2 is yi[-1]) else i2) for i2 in yi)
+                        nel = ("elem", T.replace(el[1], sub2) if sub2 else el[1], tuple(yg) + tuple(T.replace(el[2], sub2) if sub2 else el[2]),
+                               tuple(el[3][:kk]) + yi2 + tuple(T.replace(el[3][kk + 1:], sub2) if sub2 else el[3][kk + 1:]))
+                        els.append(nel)
+                if hit:
+                    return ("bag", tuple(els)) + tuple(t[2:])
+            return t
+        for x in events[cons[-1] + 1:]:
+            if T.contains((x.term, x.guards, x.iters), callterm):
+                out.append(Event(0, x.kind, rebag(x.term), rebag(x.raw), x.node, x.stmt, rebag(x.guards), rebag(x.iters), x.tries, x.awaited, x.extra))
+            else:
+                out.append(x)
+        if any(T.contains((x.term, x.guards, x.iters), callterm) for x in out):
+            continue        # the generator object is used in another way as well: leave everything as it is
+        for i, ev in enumerate(out):
+            ev.idx = i
+        return out, True
+    return events, False
+
+
 def spliced(prog: Program, fi: FuncInfo) -> Summary:
     """The function's summary with the bodies of helpers spliced in at their call sites (small
     synchronous nested / same-module helpers of the pinned tree, and every helper that a later change
@@ -2528,9 +2663,13 @@ def spliced(prog: Program, fi: FuncInfo) -> Summary:
         out: List[Event] = list(base.events)
         # several rounds: fusing the first round's results can expose further calls (a method called on each
         # element of a collection of value-class constructors that a generator helper produced)
-        for _round in range(4):
-            out2, ch = _splice_pass(prog, fi, out)
-            if not ch:
+        for _round in range(5):
+            out, chg = _inline_generators(prog, fi, out)
+            _DEFERRED_GEN[0] = False
+            out2, ch = _splice_pass(prog, fi, out, defer_generators=(_round == 0))
+            deferred = _DEFERRED_GEN[0]
+            changed = changed or chg
+            if not ch and not chg and not deferred:
                 break
             changed = True
             out = fuse_events(out2)
